@@ -8,6 +8,7 @@ machine over all token trees).  Decided on the MIR of `indextree_macros::tree` a
   (5) pairing: Nest and its nesting marker are pushed together (control-equivalent), Append dominates Nest, Parent is emitted on the marker arm
   (6) stack discipline: initial stack = nodes reversed; marker pushed below the children on the stack the loop pops; children reversed, taken from the popped node;
       Append carries the popped node's expression
+  (7) cursor machine: Append assigns `last = node.append_value(expr, arena)`, Nest assigns `node = last`, Parent assigns `node = <parent of node>`; the block's value is the root id
   (4) the templates name only the API functions append_value, new_node, get, parent, unwrap (read from the identifier constants emitted by quote!)
 """
 from vlib import facts, rules
@@ -29,6 +30,35 @@ def idents_of(prog, f):
             ss = [o[1] for o in org if o[0] == "const" and isinstance(o[1], str)]
             out.append((bi, ss[0] if ss else None))
     return out
+
+
+PUNCT = {"push_eq": "=", "push_semi": ";", "push_dot": ".", "push_colon2": "::", "push_comma": ",", "push_colon": ":", "push_lt": "<", "push_gt": ">", "push_and": "&",
+         "push_rarrow": "->", "push_underscore": "_", "push_pound": "#"}
+
+
+def token_stream(prog, f, blocks=None):
+    """Tokens emitted by quote! in block order: identifiers, punctuation, '(group)' markers, '#expr' interpolations."""
+    out = []
+    for bi, t in prog.calls(f):
+        if blocks is not None and bi not in blocks:
+            continue
+        n = rules.callee_name(t["callee"]).rsplit("::", 1)[-1]
+        if n == "push_ident":
+            org = rules.origin(prog, f, t["args"][1])
+            ss = [o[1] for o in org if o[0] == "const" and isinstance(o[1], str)]
+            out.append(ss[0] if ss else "?")
+        elif n in PUNCT:
+            out.append(PUNCT[n])
+        elif n == "push_group":
+            out.append("(group)")
+        elif rules.callee_name(t["callee"]).endswith(TOTOK):
+            out.append("#expr")
+    return out
+
+
+def has_subseq(tokens, pat):
+    n = len(pat)
+    return any(tokens[i:i + n] == pat for i in range(len(tokens) - n + 1))
 
 
 def main(tier):
@@ -128,6 +158,47 @@ def main(tier):
         o = rules.origin(prog, f, agg["stmt"]["rv"]["ops"][0])
         run.ob("stack", "Append carries the popped node's own expression", any(x[0] == "call" and x[1] == "alloc::vec::Vec::<T, A>::pop" and ".node" in x[3] for x in o),
                key="stack|Append does not carry the popped node's expression", detail=sorted(map(str, o)), nontrivial="append-src")
+    # (7) the generated cursor machine: which variable each template assigns (variable names are read from the declarations, so a consistent rename is fine)
+    tt = token_stream(prog, f)
+    X = Y = None
+    for i in range(len(tt) - 10):
+        if tt[i:i + 2] == ["let", "mut"] and tt[i + 3:i + 8] == [":", "::", "indextree", "::", "NodeId"]:
+            if tt[i + 8] == "=" and X is None:
+                X = tt[i + 2]
+            elif tt[i + 8] == ";" and Y is None:
+                Y = tt[i + 2]
+    if run.ob("cursor-machine", "the generated code declares a node cursor (initialised with the root) and a last-node variable", X is not None and Y is not None,
+              key="cursor-machine|declarations `let mut <node>: NodeId = root; let mut <last>: NodeId;` not found", detail=tt[-60:]):
+        gcfg = CFG(g["mir"])
+        sw = [(bi, t) for bi, t in prog.terms(g) if t["k"] == "switch"]
+        arms = {}
+        if sw:
+            disc = None
+            for bj, sj, st_ in prog.stmts(g):
+                if bj == sw[0][0] and st_["k"] == "assign" and st_["rv"]["k"] == "discr":
+                    disc = {v: n for n, v in st_["rv"]["variants"]}
+            if disc:
+                for v, tgt in sw[0][1]["arms"]:
+                    arms[disc.get(v)] = tgt
+                for n_ in disc.values():
+                    arms.setdefault(n_, sw[0][1]["otherwise"])
+        if run.ob("cursor-machine", "to_stream dispatches on the action kind", set(arms) >= {"Append", "Parent", "Nest"}, key="cursor-machine|no match on the action kind in to_stream"):
+            def arm_tokens(name):
+                others = [b for k, b in arms.items() if k != name]
+                blocks = {b for b in gcfg.reachable_from(arms[name]) if not any(b in gcfg.reachable_from(o) and gcfg.dominates(o, b) for o in others)}
+                blocks = {b for b in blocks if gcfg.dominates(arms[name], b)}
+                return token_stream(prog, g, blocks)
+            ta, tp, tn = arm_tokens("Append"), arm_tokens("Parent"), arm_tokens("Nest")
+            run.ob("cursor-machine", "Append: <last> = <node>.append_value(#expr, arena)", has_subseq(ta, [Y, "=", X, ".", "append_value"]) and ta.count("#expr") == 1,
+                   key="cursor-machine|Append template is not `last = node.append_value(expr, arena)`", detail=ta, nontrivial="cm-append", sample=True)
+            run.ob("cursor-machine", "Nest: <node> = <last>", tn == [X, "=", Y, ";"], key="cursor-machine|Nest template is not `node = last;`", detail=tn, nontrivial="cm-nest", sample=True)
+            okp = len(tp) >= 4 and tp[-4] == X and tp[-3] == "=" and tp[-1] == ";" and tp[-2] not in (X, Y) and "parent" in tp and "get" in tp and tp.index("get") < tp.index("parent") \
+                and has_subseq(tp, ["let", tp[-2], "="])
+            run.ob("cursor-machine", "Parent: <node> = parent of <node> (looked up through Arena::get(..).parent())", okp and X in tp[:-4],
+                   key="cursor-machine|Parent template does not move the node cursor to its parent", detail=tp, nontrivial="cm-parent", sample=True)
+        tail = [t_ for t_ in tt if t_ not in ("(group)", "#expr")]
+        run.ob("cursor-machine", "the macro's value is the root id", len(tail) >= 1 and tail[-1] not in (X, Y, ";") and has_subseq(tt, ["=", tail[-1], ";"]),
+               key="cursor-machine|the generated block does not end with the root id", detail=tt[-12:], nontrivial="cm-root")
     # (4) API named by the templates
     ids_tree = [s for _, s in idents_of(prog, f)]
     ids_act = [s for _, s in idents_of(prog, g)]
